@@ -14,4 +14,5 @@ cp /verif/KNOWN_FINDINGS.txt $M/out/
 . /verif/labmap.sh
 LAB=$(lab_of "$ID")
 cd $H && cargo build --offline --bin "$LAB" 2>$M/build.log || { tail -30 $M/build.log; echo "BUILD FAILED"; exit 2; }
-VERIF_ROOT=$M/out "target/debug/$LAB" --prop "$ID" --tier "$TIER"
+DEEP=""; case "$ID" in C08|C09|C10|C19) [ "$TIER" = quick ] && DEEP="--deep" ;; esac
+VERIF_ROOT=$M/out "target/debug/$LAB" --prop "$ID" --tier "$TIER" $DEEP
